@@ -596,11 +596,19 @@ def r2_issue_dispatch(ctx, sym, at):
                   "reading x in state %s issues %s, expected %s" % (name, sorted(got), sorted(want)),
                   "the program\n" + '\n'.join(render([(s[0],) + tuple(s[1:-1]) if s[0] != 'if' else
                                                        ('if', tuple((x[0], x[1]) for x in s[1]), ()) for s in prog])))
+    # the end of the scope, executed: a name assigned and never read is reported unused, unless it is `_`; a name that
+    # is read afterwards is not
     fs = at.core_methods['_finish_scope']
-    ok = any(isinstance(n, ast.If) and "state.read == 'no'" in norm(n.test) and "state.name != '_'" in norm(n.test)
-             and any(call_name(c) == 'unused_variable' for c in calls(n)) for n in ast.walk(fs))
-    ctx.check(ok, 'R2', '_finish_scope:unused', at.core, fs,
-              "unused_variable is not issued exactly for read == 'no' (name != '_')", "x = 0 with no later read")
+    for name, (prog, want) in {'never-read': ([('a', 'x', 1)], {'x'}), 'underscore': ([('a', '_', 1)], set()),
+                               'read-afterwards': ([('a', 'x', 1), ('r', 'x', 2)], set()),
+                               'one-of-two': ([('a', 'x', 1), ('a', 'y', 2), ('r', 'y', 3)], {'x'})}.items():
+        issues, raised = at.run(prog)
+        got = {n for l, n, s_ in issues if l == 'unused_variable'}
+        ctx.check(raised is None and got == want, 'R2', '_finish_scope:unused[%s]' % name, at.core, fs,
+                  "at the end of the scope %s reported unused, expected %s%s" % (
+                      sorted(got) or 'nothing is', sorted(want) or 'nothing',
+                      '' if raised is None else ' (raises %s)' % raised.kind),
+                  "the program\n" + '\n'.join(render([(s_[0],) + tuple(s_[1:-1]) for s_ in prog])))
 
 
 def r3_path_discipline(ctx, sym, at):
